@@ -58,6 +58,38 @@ def import_block(rng, lang):
     return "\n".join(lines) + "\n\n", aliases
 
 
+BLOCK_SHAPES = 9
+
+
+def block_comment(rng, label, ind, shape=None, col1=None):
+    """a multi-line general comment placed on lines of its own before a statement indented by `ind`:
+    `/*` alone on its first line or followed by text, continuation lines un-indented / indented like the
+    code / deeper / `*`-prefixed, closing `*/` on its own line or not; the whole comment starts either in
+    column 1 or at the indentation of the code."""
+    shape = rng.randrange(BLOCK_SHAPES) if shape is None else shape
+    col1 = (rng.random() < 0.4) if col1 is None else col1
+    start = "" if col1 else ind
+    if shape == 0:
+        lines = ["/*", label + " text", "second line", "*/"]                       # text in column 1
+    elif shape == 1:
+        lines = ["/* " + label, "more", "*/"]
+    elif shape == 2:
+        lines = ["/*", ind + label + " text", ind + "second", ind + "*/"]           # indented like the code
+    elif shape == 3:
+        lines = ["/*", ind + "\t" + label + " deeper", ind + "\t\tand deeper", ind + "*/"]
+    elif shape == 4:
+        lines = ["/*", " * " + label + " starred", " * second", " */"]
+    elif shape == 5:
+        lines = ["/* " + label, ind + " * starred indented", ind + " */"]
+    elif shape == 6:
+        lines = ["/*", "", label + " after an empty line", "", "*/"]
+    elif shape == 7:
+        lines = ["/* " + label, "   more */"]
+    else:
+        lines = ["/*", "    " + label + " spaces", "  two", "*/"]
+    return start + lines[0] + "".join("\n" + l for l in lines[1:])
+
+
 def plan_edits(rng, text, lang, level=0.25, protect=0):
     """a list of independent edits of the cleanly rendered `text`; each edit is a dict with
     'id', 'cat' ('comment' | 'layout') and what `apply_edits` needs.  Comment texts are unique (cN)."""
@@ -91,7 +123,9 @@ def plan_edits(rng, text, lang, level=0.25, protect=0):
             elif k < 0.75:
                 add("comment", "before", line=i, text=ind + "/* " + cm() + " */")
             elif k < 0.9:
-                add("comment", "before", line=i, text=ind + "/* " + cm() + "\n" + ind + "   more */")
+                shape, col1 = rng.randrange(BLOCK_SHAPES), rng.random() < 0.4
+                add("comment", "before", line=i, text=block_comment(rng, cm(), ind, shape, col1),
+                    mlc="shape%d-%s" % (shape, "col1" if col1 or not ind else "ind"))
             else:
                 add("comment", "before", line=i, text=line_comment())
         if rng.random() < level * 0.4:
